@@ -11,7 +11,7 @@ EXPLANATIONS = {
     "not this thread and does not transitively wait on this thread; otherwise Cycle is reported; the Panic-strategy arms of the two "
     "cycle handlers diverge (no path returns a value); fetch_cold / maybe_changed_after_cold dispatch Claimed/Running/Cycle to "
     "execute-or-verify / block-then-retry / cycle handler; ClaimGuard and ActiveQueryGuard release on every exit including unwinding; "
-    "a waiter woken with Panicked throws Cancelled::PropagatedPanic. Not decided: behaviour of later histories.",
+    "a waiter woken with Panicked throws Cancelled::PropagatedPanic. maybe_changed_after_cold_cycle answers Changed on every non-diverging path. Not decided: behaviour of later histories.",
     "C16": "Decided: salsa's own locks are acquired in an acyclic order (lock-class graph computed from the MIR: only SYNC->DG, "
     "INTERN->PAGES style edges), never two sync-table guards at once, never parking (Condvar::wait) while a sync-table or interned "
     "shard guard is held; published data uses Release/Acquire (atomic table, C16.2); the wake-up orderings of C19 and the claim "
@@ -19,11 +19,11 @@ EXPLANATIONS = {
     "C17": "Decided: execute() takes a ClaimGuard by value and ClaimGuards are built only after the SyncState insert/update under the "
     "shard lock; an entry owned by a thread never yields Claimed; the memo that is verified/passed to execute is loaded AFTER the "
     "successful claim and verified before executing; insert_memo precedes the release of the claim and stamps verified_at = current "
-    "revision; the shard depends only on the key. Not decided: execution counts under concrete schedules.",
+    "revision; the shard depends only on the key. Key -> hash -> shard -> entry agreement in try_claim / peek_claim / mark_as_transfer_target, fresh SyncState{key, this thread, flags clear}, the guard releases the key and shard it claimed. Not decided: execution counts under concrete schedules.",
     "C18": "Decided: cycle participants and nested heads hand their lock to the outer head (TransferTo) instead of releasing it; "
     "a transferred lock is re-claimed only by the owner thread (or a thread the owner transitively waits on) and only with "
     "Reentrancy::Allow; transfer marks the target, updates the own state and calls transfer_lock under one sync guard; release "
-    "undoes a double claim and wakes direct and transferred waiters. Not decided: termination/values under interleavings, acyclicity "
+    "undoes a double claim and wakes direct and transferred waiters. A head running on another thread is never treated as a head of our own cycle (TryClaimCycleHeadsIter::next), validate_same_iteration continues only for Cycle verdicts with equal verified_at and iteration; the re-transfer path walks the whole transfer chain in a loop; the search for the thread to resume is recursive. Not decided: termination/values under interleavings, acyclicity "
     "of the transfer forest as a data-structure invariant.",
     "C19": "Decided (for every path): block_on adds the edge, then releases the query's sync guard, then waits, re-checking wait_results "
     "before every wait and never dropping the graph guard in between; unblock_runtime removes the edge, stores the result, then "
